@@ -858,6 +858,46 @@ func oneLine(s string) string {
 	return strings.NewReplacer("\n", " ", "\t", " ", "\r", " ").Replace(s)
 }
 
+// collectParameters gathers the Value of every *cypher.Parameter reachable from v (the criteria as applied).
+func collectParameters(v reflect.Value, seen map[uintptr]bool, out *[]string, depth int) {
+	if !v.IsValid() || depth > 300 {
+		return
+	}
+	switch v.Kind() {
+	case reflect.Pointer:
+		if v.IsNil() || seen[v.Pointer()] {
+			return
+		}
+		seen[v.Pointer()] = true
+		if v.Type() == reflect.TypeOf((*cypher.Parameter)(nil)) {
+			p := (*cypher.Parameter)(v.UnsafePointer()) // may be reached through the unexported embedded expressionList
+			*out = append(*out, typedValue(p.Value))
+			return
+		}
+		collectParameters(v.Elem(), seen, out, depth+1)
+	case reflect.Interface:
+		if !v.IsNil() {
+			collectParameters(v.Elem(), seen, out, depth+1)
+		}
+	case reflect.Struct:
+		for i := 0; i < v.NumField(); i++ {
+			collectParameters(v.Field(i), seen, out, depth+1)
+		}
+	case reflect.Slice, reflect.Array:
+		for i := 0; i < v.Len(); i++ {
+			collectParameters(v.Index(i), seen, out, depth+1)
+		}
+	case reflect.Map:
+		it := v.MapRange()
+		for it.Next() {
+			collectParameters(it.Value(), seen, out, depth+1)
+		}
+	}
+}
+
+// typedValue renders a parameter value with its Go type (ToSexp alone prints int and int64 alike).
+func typedValue(v any) string { return fmt.Sprintf("%T ", v) + ToSexp(v) }
+
 // astValue reports whether a parameter VALUE is a node of the cypher model (it must be plain data).
 func astValue(v any) string {
 	if v == nil {
@@ -988,7 +1028,9 @@ func (r *c10Runner) Step(t []string, raw string) string {
 	b := &c10Builder{}
 	qb := qn.NewEmptyQueryBuilder()
 	lift := "ok"
+	var applied []string
 	for _, c := range b.top(term) {
+		collectParameters(reflect.ValueOf(c), map[uintptr]bool{}, &applied, 0)
 		if w, ok := c.(*cypher.Where); ok && len(w.Expressions) == 1 {
 			if u := liftedEdgeKind(w.Expressions[0], false, ""); u != "" {
 				lift = u
@@ -1030,6 +1072,17 @@ func (r *c10Runner) Step(t []string, raw string) string {
 		if !strings.Contains(text, "$"+k) {
 			params = "unused-parameter " + k
 			break
+		}
+	}
+	if params == "ok" { // same multiset of (type, value) as the constructors were given
+		var got []string
+		for _, k := range keys {
+			got = append(got, typedValue(qb.Parameters[k]))
+		}
+		sort.Strings(got)
+		sort.Strings(applied)
+		if strings.Join(got, "\x00") != strings.Join(applied, "\x00") {
+			params = fmt.Sprintf("values-differ applied=%d bound=%d", len(applied), len(got))
 		}
 	}
 	if params == "ok" {
